@@ -607,28 +607,59 @@ func minimiseAndWrite(bin string, p *Prop, vr *violRec, tmp string) (string, err
 	if vr.plan == nil {
 		return "", fmt.Errorf("violation %s reported without a plan", vr.v.Signature)
 	}
-	req := &core.Request{Mode: "shrink", Property: p.ID, Plan: vr.plan, Target: vr.v.Signature, MaxExec: 300}
-	res := runWorker(bin, req, tmp, "shrink", 20*time.Minute, 1)
 	small := vr.plan
 	execs := 0
 	var out *core.Outcome
-	if res.err == nil && len(res.recs) == 1 && hasSig(res.recs[0].Outcome, p.ID, vr.v.Signature) {
-		small = res.recs[0].Plan
-		execs = res.recs[0].Execs
-		out = res.recs[0].Outcome
+	if p.Race {
+		// The race detector reports a frame pair once per process and its
+		// bounded shadow history depends on everything the process executed
+		// before: every candidate is judged in a fresh process, exactly as the
+		// replay will be. Greedy one-step removal from the end, bounded.
+		deadline := time.Now().Add(90 * time.Second)
+		for i := len(small.Steps) - 1; i >= 0 && execs < 40 && time.Now().Before(deadline); i-- {
+			q := small.Clone()
+			q.Steps = append(append([]json.RawMessage(nil), small.Steps[:i]...), small.Steps[i+1:]...)
+			r := runWorker(bin, &core.Request{Mode: "exec", Plan: q}, tmp, fmt.Sprintf("fs%d", i), 5*time.Minute, 1)
+			execs++
+			if r.err == nil && len(r.recs) == 1 && hasSig(r.recs[0].Outcome, p.ID, vr.v.Signature) {
+				small = q
+			}
+		}
+	} else {
+		req := &core.Request{Mode: "shrink", Property: p.ID, Plan: vr.plan, Target: vr.v.Signature, MaxExec: 300}
+		res := runWorker(bin, req, tmp, "shrink", 20*time.Minute, 1)
+		if res.err == nil && len(res.recs) == 1 && hasSig(res.recs[0].Outcome, p.ID, vr.v.Signature) {
+			small = res.recs[0].Plan
+			execs = res.recs[0].Execs
+			out = res.recs[0].Outcome
+		}
 	}
 	// Replay in a fresh process: must reproduce signature and log hash twice.
 	var hashes []string
-	for i := 0; i < 2; i++ {
+	// Race checks: the execution replays exactly (same event log), but whether
+	// the detector's bounded shadow history still holds the earlier access when
+	// the later one happens varies from process to process; a report is never
+	// a false positive, so the plan is re-run until it has shown up twice.
+	attempts := 2
+	if p.Race {
+		attempts = 12
+	}
+	for i := 0; i < attempts && len(hashes) < 2; i++ {
 		r := runWorker(bin, &core.Request{Mode: "exec", Plan: small, KeepLog: true}, tmp, fmt.Sprintf("rp%d", i), 10*time.Minute, 1)
 		if r.err != nil || len(r.recs) != 1 {
 			return "", fmt.Errorf("replay run failed: %v", r.err)
 		}
 		if !hasSig(r.recs[0].Outcome, p.ID, vr.v.Signature) {
+			if p.Race {
+				continue
+			}
 			return "", fmt.Errorf("replay diverged: violation %s did not reproduce in a fresh process (plan seed %d)", vr.v.Signature, small.Seed)
 		}
 		hashes = append(hashes, r.recs[0].Outcome.LogHash)
 		out = r.recs[0].Outcome
+	}
+	if len(hashes) < 2 {
+		return "", fmt.Errorf("replay diverged: violation %s showed up in %d of %d fresh processes (plan seed %d)", vr.v.Signature, len(hashes), attempts, small.Seed)
 	}
 	if hashes[0] != hashes[1] {
 		return "", fmt.Errorf("replay diverged: log hash %s vs %s for the same plan", hashes[0], hashes[1])
@@ -689,6 +720,14 @@ func replay(path string) int {
 	if r.err != nil || len(r.recs) != 1 {
 		fmt.Fprintf(os.Stderr, "HARNESS: replay run failed: %v\n", r.err)
 		return 2
+	}
+	// race replays: the execution is the same every time; the detector's
+	// report of it is not (see minimiseAndWrite) - re-run until it shows
+	for i := 0; rf.Race && i < 11 && !hasSig(r.recs[0].Outcome, rf.Property, rf.Signature); i++ {
+		r2 := runWorker(bin, &core.Request{Mode: "exec", Plan: rf.Plan, KeepLog: true}, tmp, fmt.Sprintf("replay%d", i), 10*time.Minute, 1)
+		if r2.err == nil && len(r2.recs) == 1 {
+			r = r2
+		}
 	}
 	o := r.recs[0].Outcome
 	if os.Getenv("VERIF_SHOWLOG") != "" {
